@@ -1733,4 +1733,250 @@ theorem new_layout (streams : List Stream) (L : Layout) (hv : ValidP streams L) 
       · rename_i hv4; simp [hv4] at h
 
 
+
+/-! ## chains inside the cached data -/
+
+
+theorem Sectors.get_inrange (s : Sectors) (id : Nat) (rd : Bytes) (h : id * s.size + s.size ≤ s.data.length) :
+    (s.get id rd).2 = (s, rd) := by
+  unfold Sectors.get
+  have : ¬ (id * s.size + s.size > s.data.length) := by omega
+  simp only [this, if_false]
+
+/-- a chain that stays inside the cached data reads nothing from the reader -/
+theorem chainLoop_follow_state (fats : List Nat) :
+    ∀ (ids : List Nat) (rem : Nat) (s : Sectors) (rd : Bytes), ids.length ≤ rem →
+      (∀ i (h : i < ids.length), ids[i] ≠ ENDOFCHAIN ∧ fats[ids[i]]? = some (ids[i+1]?.getD ENDOFCHAIN)) →
+      (∀ x ∈ ids, x * s.size + s.size ≤ s.data.length) →
+      ∀ (x : Bytes) (s' : Sectors) (rd' : Bytes),
+        Sectors.chainLoop fats rem (ids[0]?.getD ENDOFCHAIN) s rd = .ok (x, s', rd') → s' = s ∧ rd' = rd := by
+  intro ids
+  induction ids with
+  | nil =>
+    intro rem s rd _ _ _ x s' rd' h
+    simp only [List.getElem?_nil, Option.getD_none, chainLoop_end] at h
+    injection h with h; injection h with _ h; injection h with h1 h2; exact ⟨h1.symm, h2.symm⟩
+  | cons a rest ih =>
+    intro rem s rd hrem hch hin x s' rd' h
+    obtain ⟨rem', rfl⟩ : ∃ r, rem = r + 1 := ⟨rem - 1, by simp at hrem; omega⟩
+    have h0 := hch 0 (by simp)
+    simp only [List.getElem_cons_zero, Nat.zero_add, List.getElem?_cons_succ] at h0
+    obtain ⟨hne, hfat⟩ := h0
+    have hg := Sectors.get_inrange s a rd (hin a (by simp))
+    simp only [List.getElem?_cons_zero, Option.getD_some] at h
+    unfold Sectors.chainLoop at h
+    simp only [hne, if_false, hfat] at h
+    rw [hg] at h
+    simp only at h
+    split at h
+    · rename_i rest' s'' rd'' heq
+      injection h with h; injection h with _ h; injection h with h1 h2
+      have := ih rem' s rd (by simp at hrem; omega) (by
+        intro i hi
+        have := hch (i + 1) (by simp; omega)
+        simpa using this) (fun y hy => hin y (by simp [hy])) rest' s'' rd'' heq
+      rw [← h1, ← h2]; exact this
+    · cases h
+    · cases h
+    · cases h
+
+
+/-- reading a chain of a space whose sectors are all cached: the result of `getChain_gen`, state unchanged -/
+theorem Space.getChain_cached (sp : Space) (ss : Nat) (hss : 0 < ss) (fill : UInt8) (P : Array (Array Bytes))
+    (fatSec difSec : Nat → Bytes)
+    (hP : UniformP ss P) (hf : ∀ j, (fatSec j).length = ss) (hd : ∀ j, (difSec j).length = ss)
+    (c : Nat) (D : Bytes) (hPc : P[c]? = some (pieces ss fill D))
+    (hok : chainOK sp c (nsect ss D.length) = true)
+    (len : Nat) (hlen : sp.owner.size ≤ len) (hres : sp.owner.size ≤ RESERVED) (rd : Bytes) (len0 : Nat) :
+    (⟨sp.body ss fill P fatSec difSec, ss⟩ : Sectors).getChain (chainStart sp c) (sp.fats len) rd len0 =
+        .ok (if len0 > 0 then (padChunks ss fill D.length D).flatten.take len0
+             else (padChunks ss fill D.length D).flatten, ⟨sp.body ss fill P fatSec difSec, ss⟩, rd) := by
+  obtain ⟨s', rd', he, _, _⟩ := Space.getChain_gen sp ss hss fill P fatSec difSec hP hf hd c D hPc hok len hlen hres
+    ⟨sp.body ss fill P fatSec difSec, ss⟩ rd rd rfl rfl len0
+  rw [he]
+  have hst : s' = ⟨sp.body ss fill P fatSec difSec, ss⟩ ∧ rd' = rd := by
+    unfold Sectors.getChain at he
+    split at he
+    · rename_i chain s'' rd'' heq
+      injection he with he; injection he with _ he; injection he with h1 h2
+      rw [chainStart_eq] at heq
+      have := chainLoop_follow_state (sp.fats len) (sp.ids c) _ _ rd
+        (by rw [Space.fats_length]; exact Nat.le_trans (Space.ids_length_le sp c _ hok) hlen)
+        (Space.fats_chain sp c _ len hok hlen hres)
+        (by
+          intro x hx
+          have := Space.ids_lt sp c _ hok x hx
+          simp only [Space.body_length sp ss fill P fatSec difSec hP hf hd]
+          have h2 : (x + 1) * ss ≤ sp.owner.size * ss := Nat.mul_le_mul_right ss (by omega)
+          rw [Nat.add_mul, Nat.one_mul] at h2
+          rw [Nat.mul_comm ss]; exact h2)
+        chain s'' rd'' heq
+      rw [← h1, ← h2]; exact this
+    · cases he
+    · cases he
+    · cases he
+  rw [hst.1, hst.2]
+
+
+
+/-! ## `get_stream` on a generated container -/
+
+
+theorem find?_unique {α : Type} (p : α → Bool) (l : List α) (d0 : α) (hex : d0 ∈ l) (hp : p d0 = true)
+    (huniq : ∀ d ∈ l, p d = true → d = d0) : l.find? p = some d0 := by
+  cases h : l.find? p with
+  | none =>
+    rw [List.find?_eq_none] at h
+    exact absurd hp (h d0 hex)
+  | some d =>
+    have h1 := List.mem_of_find?_eq_some h
+    have h2 := List.find?_some h
+    rw [huniq d h1 h2]
+
+theorem name_nonempty (name : List Char) (h : nameEncOK name = true) : name ≠ [] := by
+  intro he
+  subst he
+  have := (nameEncOK_spec [] h).1
+  simp [utf16Units] at this
+
+theorem stream_idx_unique (streams : List Stream) (hnd : (streams.map (·.name)).Nodup) (s s0 : Nat) (st st0 : Stream)
+    (h1 : streams[s]? = some st) (h2 : streams[s0]? = some st0) (hn : st.name = st0.name) : s = s0 := by
+  have hs : s < streams.length := by
+    by_cases hlt : s < streams.length
+    · exact hlt
+    · rw [List.getElem?_eq_none (by omega)] at h1; cases h1
+  have hs0 : s0 < streams.length := by
+    by_cases hlt : s0 < streams.length
+    · exact hlt
+    · rw [List.getElem?_eq_none (by omega)] at h2; cases h2
+  rw [List.Nodup, List.pairwise_iff_getElem] at hnd
+  have e1 : (streams.map (·.name))[s]'(by simpa using hs) = st.name := by
+    simp only [List.getElem_map]
+    rw [List.getElem?_eq_getElem hs] at h1; rw [Option.some.inj h1]
+  have e2 : (streams.map (·.name))[s0]'(by simpa using hs0) = st0.name := by
+    simp only [List.getElem_map]
+    rw [List.getElem?_eq_getElem hs0] at h2; rw [Option.some.inj h2]
+  rcases Nat.lt_trichotomy s s0 with hlt | heq | hgt
+  · exact absurd (e1.trans (hn.trans e2.symm)) (hnd s s0 (by simpa using hs) (by simpa using hs0) hlt)
+  · exact heq
+  · exact absurd (e2.trans (hn.symm.trans e1.symm)) (hnd s0 s (by simpa using hs0) (by simpa using hs) hgt)
+
+theorem find_stream (streams : List Stream) (L : Layout) (hv : ValidP streams L) (s0 : Nat) (st : Stream)
+    (hst : streams[s0]? = some st) :
+    (parsedDirs streams L).find? (fun d => d.name = st.name) = some (streamDir streams L s0) := by
+  have hs0 : s0 < streams.length := by
+    by_cases hlt : s0 < streams.length
+    · exact hlt
+    · rw [List.getElem?_eq_none (by omega)] at hst; cases hst
+  have hmem : st ∈ streams := List.mem_of_getElem? hst
+  obtain ⟨henc, hroot⟩ := nameOK_enc _ (hv.names st hmem).1
+  have hne := name_nonempty _ henc
+  have hname0 : (streamDir streams L s0).name = st.name := by simp [streamDir, hst]
+  apply find?_unique
+  · unfold parsedDirs
+    simp only [List.cons_append, List.mem_cons, List.mem_append, List.mem_map]
+    right; left
+    exact ⟨some s0, hv.dirAll s0 hs0, rfl⟩
+  · simpa using hname0
+  · intro d hd hp
+    have hp' : d.name = st.name := by simpa using hp
+    unfold parsedDirs at hd
+    simp only [List.cons_append, List.mem_cons, List.mem_append, List.mem_map, List.mem_replicate] at hd
+    rcases hd with rfl | ⟨o, ho, rfl⟩ | ⟨_, rfl⟩
+    · exact absurd hp'.symm hroot
+    · cases o with
+      | none => exact absurd hp'.symm hne
+      | some s =>
+        have hs := hv.dirRange _ ho s rfl
+        obtain ⟨st', hst'⟩ : ∃ st', streams[s]? = some st' := ⟨streams[s], by simp [hs]⟩
+        have hn' : st'.name = st.name := by
+          simp only [slotDir, streamDir, hst'] at hp'; exact hp'
+        have := stream_idx_unique streams hv.nodup s s0 st' st hst' hst hn'
+        subst this; rfl
+    · exact absurd hp'.symm hne
+
+
+/-- the reader state after `Cfb::new` on a generated container, and after any number of `get_stream` calls -/
+structure Good (streams : List Stream) (L : Layout) (c : CfbSt) (rd : Bytes) : Prop where
+  dirs : c.dirs = parsedDirs streams L
+  fats : c.fats = L.main.fats (L.nfat * L.perFat)
+  mini : c.mini = ⟨miniBody streams L, 64⟩
+  miniFats : c.miniFats = miniFatTable L
+  inv : c.sectors.data ++ rd = mainBody streams L
+  size : c.sectors.size = L.ss
+
+theorem stream_read_result (ss : Nat) (fill : UInt8) (hss : 0 < ss) (D : Bytes) :
+    (if D.length > 0 then (padChunks ss fill D.length D).flatten.take D.length
+      else (padChunks ss fill D.length D).flatten) = D := by
+  split
+  · exact padChunks_flatten_take ss fill hss _ D (Nat.le_refl _)
+  · have : D = [] := List.eq_nil_of_length_eq_zero (by omega)
+    subst this; simp [padChunks]
+
+theorem getStream_layout (streams : List Stream) (L : Layout) (hv : ValidP streams L) (c : CfbSt) (rd : Bytes)
+    (hg : Good streams L c rd) (s0 : Nat) (st : Stream) (hst : streams[s0]? = some st) :
+    ∃ c' rd', getStream c st.name rd = .ok (st.data, c', rd') ∧ Good streams L c' rd' := by
+  have hs0 : s0 < streams.length := by
+    by_cases hlt : s0 < streams.length
+    · exact hlt
+    · rw [List.getElem?_eq_none (by omega)] at hst; cases hst
+  obtain ⟨dirs, sectors, fats, mini, miniFats⟩ := c
+  obtain ⟨g1, g2, g3, g4, g5, g6⟩ := hg
+  simp only at g1 g2 g3 g4 g5 g6
+  subst g1 g2 g3 g4
+  unfold getStream
+  simp only
+  rw [find_stream streams L hv s0 st hst]
+  simp only [streamDir, hst]
+  by_cases hm : isMini st = true
+  · have hlt : st.data.length < 4096 := by simpa [isMini] using hm
+    simp only [hlt, if_true, hm]
+    have hok := hv.minis s0 hs0
+    simp only [hst, hm, if_true] at hok
+    have hN : L.mini.owner.size ≤ nsect L.perFat L.mtotal * L.perFat :=
+      le_nsect_mul L.perFat L.mtotal (by rcases ss_cases L with ⟨_, h⟩ | ⟨_, h⟩ <;> omega)
+    have := Space.getChain_cached L.mini 64 (by omega) L.fill (miniPieces streams L)
+      (fun _ => List.replicate 64 L.fill) (fun _ => List.replicate 64 L.fill) (miniPieces_uniform streams L)
+      (by simp) (by simp) s0 st.data (miniPieces_get streams L s0 st hst hm) hok _ hN (mtotal_le streams L hv) rd
+      st.data.length
+    rw [stream_read_result 64 L.fill (by omega)] at this
+    rw [miniFatTable_eq]
+    unfold miniBody
+    rw [this]
+    exact ⟨_, rd, rfl, ⟨rfl, rfl, rfl, rfl, g5, g6⟩⟩
+  · have hge : ¬ st.data.length < 4096 := by simpa [isMini] using hm
+    have hm' : isMini st = false := by simpa using hm
+    simp only [hge, if_false, hm', Bool.false_eq_true]
+    have hok := hv.chains (3 + s0) (by omega)
+    have hd : (mainData streams L).getD (3 + s0) [] = st.data := by
+      rw [List.getD_eq_getElem?_getD, mainData_stream streams L s0 st hst]; simp [hm]
+    rw [hd] at hok
+    have hP : (mainPieces streams L)[3 + s0]? = some (pieces L.ss L.fill st.data) := by
+      apply mainPieces_get
+      rw [mainData_stream streams L s0 st hst]; simp [hm]
+    obtain ⟨s', rd', he, hi, hz⟩ := Space.getChain_gen L.main L.ss (ss_pos L) L.fill (mainPieces streams L) (fatSector L)
+      (difSector L) (mainPieces_uniform streams L) (fatSector_length L) (difSector_length L) (3 + s0) st.data hP hok
+      (L.nfat * L.perFat) hv.total_fat hv.total_le sectors rd [] g6
+      (by rw [List.append_nil]; exact g5) st.data.length
+    rw [stream_read_result L.ss L.fill (ss_pos L)] at he
+    rw [List.append_nil] at hi
+    rw [he]
+    exact ⟨_, rd', rfl, ⟨rfl, rfl, rfl, rfl, hi, hz⟩⟩
+
+theorem hasDirectory_layout (streams : List Stream) (L : Layout) (hv : ValidP streams L) (c : CfbSt) (rd : Bytes)
+    (hg : Good streams L c rd) (st : Stream) (hst : st ∈ streams) : hasDirectory c st.name = true := by
+  obtain ⟨s0, hs0, rfl⟩ := List.getElem_of_mem hst
+  have h := find_stream streams L hv s0 streams[s0] (by simp [hs0])
+  unfold hasDirectory
+  rw [hg.dirs, List.any_eq_true]
+  have hmem := List.mem_of_find?_eq_some h
+  have hp := List.find?_some h
+  exact ⟨_, hmem, hp⟩
+
+theorem new_layout_good (streams : List Stream) (L : Layout) (hv : ValidP streams L) :
+    ∃ c rd, Cfb.new (layoutCfb streams L) (layoutCfb streams L).length = .ok (c, rd) ∧ Good streams L c rd := by
+  obtain ⟨s, rd, he, hi, hz⟩ := new_layout streams L hv
+  exact ⟨_, rd, he, ⟨rfl, rfl, rfl, rfl, hi, hz⟩⟩
+
+
 end Cfb
